@@ -353,6 +353,23 @@ class FuncAnalysis:
                         elif isinstance(t2, ast.Name) and t2.id in self.declared_global:
                             out.append(Site(self.mf.relpath, self.qualname, n.lineno, "global-rebind", t2.id,
                                             f"global:{t2.id}", False, "rebinding a module-level name"))
+            elif isinstance(n, ast.Call) and _callee_name(n) in CALLEE_MODIFIES:
+                # handing an object to a callee's in/out parameter is a write to that object
+                cname = _callee_name(n)
+                params, modp = CALLEE_MODIFIES[cname]
+                offset = 1 if (params and params[0] == "self") else 0
+                for mp in modp:
+                    arg = None
+                    for kw in n.keywords:
+                        if kw.arg == mp:
+                            arg = kw.value
+                    if arg is None and mp in params:
+                        i = params.index(mp) - offset
+                        if 0 <= i < len(n.args):
+                            arg = n.args[i]
+                    if arg is None or (isinstance(arg, ast.Constant) and arg.value is None):
+                        continue
+                    out.append(self._site(n, f"passes-to-inout.{cname}.{mp}", arg, ast.unparse(arg)))
             elif isinstance(n, ast.Call) and isinstance(n.func, ast.Attribute):
                 if n.func.attr in MUTATORS:
                     out.append(self._site(n, "mutate." + n.func.attr, n.func.value, ast.unparse(n.func.value)))
@@ -403,6 +420,19 @@ class FuncAnalysis:
         return (not whys), "; ".join(whys)
 
 
+def _callee_name(call):
+    f = call.func
+    if isinstance(f, ast.Name):
+        return f.id
+    if isinstance(f, ast.Attribute):
+        return f.attr
+    return None
+
+
+# simple function name -> (parameter list, in/out parameters), filled by analyse()
+CALLEE_MODIFIES = {}
+
+
 def flatten(tg):
     if isinstance(tg, (ast.Tuple, ast.List)):
         out = []
@@ -447,10 +477,21 @@ def analyse(repo_root, frames_path, sub="fastavro", skip=("__main__.py",)):
     for rel, mf in mods.items():
         for nm in mf.mutable_globals:
             all_mutable.setdefault(nm, []).append(rel)
+    CALLEE_MODIFIES.clear()
+    for (rel, q), plist in modifies.items():
+        mf = mods.get(rel)
+        if mf is None:
+            continue
+        for q2, node, cls in mf.functions:
+            if q2 == q:
+                a = node.args
+                CALLEE_MODIFIES[q.split(".")[-1]] = ([p.arg for p in a.posonlyargs + a.args + a.kwonlyargs], list(plist))
     sites = []
     nfuncs = 0
-    # what is stored on instances: provenance of every `self.attr = expr`
-    for rel, mf in mods.items():
+    # what is stored on instances: provenance of every `self.attr = expr` (iterated: an attribute
+    # may be assigned from another attribute)
+    for _round in range(3):
+      for rel, mf in mods.items():
         gm = {nm: f"{all_mutable[nm][0]}:{nm}" for nm in mf.imported if nm in all_mutable}
         for q, node, cls in mf.functions:
             if cls is None:
